@@ -612,7 +612,24 @@ void HistSim::endOp(Judge& j, const Op& op, size_t ix) {
         bool idsBurnt = g.pools >= g.maxPools && g.deadPools == 0 && g.usedSlots == g.slotCapacity &&
                         g.slotCapacity < size_t(verif::Inspector::NULLSLOT);
         static const char* kSig = "ovf:shrink-burnt-pool-ids";
-        if (idsBurnt && opt.skipKnown && opt.known.count(kSig)) {
+        // a long history may really use up the slot ids of a small build: that is the limit, not a finding
+        // (the model already holds what the operation was to build: count the slots that takes)
+        size_t wanted = 0;
+        visitc(ds.model, [&](const Val& x) {
+          wanted += x.a.size() + 2 * x.o.size();
+          if ((x.k == K::Int && (x.i < INT32_MIN || x.i > INT32_MAX)) || (x.k == K::UInt && x.u > 0xFFFFFFFFull) || x.k == K::Double)
+            wanted++;
+        });
+        bool limitReached = g.deadPools == 0 && wanted + 4 > size_t(verif::Inspector::NULLSLOT);
+        if (limitReached) {
+          count("free.slot_limit_reached");
+          tolerated = true;
+          obsInvalid = true;
+          limitSeen_ = true;
+        } else if (ds.ovf && (limitSeen_ || obsInvalid)) {
+          // overflowed() is sticky: it was already set, for a reason accepted above, before this operation started
+          tolerated = true;
+        } else if (idsBurnt && opt.skipKnown && opt.known.count(kSig)) {
           count("known.shrink_burnt_pool_ids");
           tolerated = true;
           obsInvalid = true;  // this build met a (spurious) limit: its transcript is not comparable across builds
